@@ -1,10 +1,12 @@
 package props
 
 import (
+	"fmt"
 	"os"
 	"path/filepath"
 	"runtime"
 	"strings"
+	"sync"
 	"testing"
 
 	"github.com/Vedant9500/WTF/internal/database"
@@ -269,5 +271,64 @@ func TestC04_CLI(t *testing.T) {
 			labels = append(labels, "cli-platform-flag")
 		}
 		rec.Case(nontrivial, map[string]any{"argv": args[2:], "db": gen.BriefDB(cmds, 6), "printed": len(items)}, labels...)
+	})
+}
+
+// TestC04_Concurrent: searches under different filter settings overlapping on one database -
+// the filter in force for a search is its own, whatever other searches run at the same time.
+func TestC04_Concurrent(t *testing.T) {
+	rec := stat.For("C04")
+	rec.Rule("concurrent use: 2-8 goroutines search one database (direct, cached, monitored) at the same time, each under its own platform / pipeline settings, 40 searches each. Oracle: the one-directional eligibility predicate on every result, judged by the options of the search that returned it.")
+	rapid.Check(t, func(t *rapid.T) {
+		cmds := gen.Bulk(t, rapid.IntRange(40, 300).Draw(t, "n"), gen.CmdOpts{Platforms: true})
+		for i := range cmds {
+			if i%3 == 0 {
+				cmds[i].Command = c04FirstWords[i%len(c04FirstWords)] + " " + cmds[i].Command
+			}
+		}
+		db := gen.Load(t, cmds)
+		mdb := database.NewMonitoredDatabase(db)
+		toks := gen.Tokens(cmds)
+		g := rapid.IntRange(2, 8).Draw(t, "goroutines")
+		opts := make([]database.SearchOptions, g)
+		qs := make([]string, g)
+		for i := range opts {
+			opts[i] = gen.Options(t, gen.OptSpec{N: len(cmds), NoNegLimit: true, NoBoosts: true})
+			opts[i].Limit = len(cmds)
+			qs[i] = rapid.SampledFrom(toks).Draw(t, "q")
+		}
+		var wg sync.WaitGroup
+		var mu sync.Mutex
+		var bad []string
+		for i := 0; i < g; i++ {
+			wg.Add(1)
+			go func(i int) {
+				defer wg.Done()
+				for rep := 0; rep < 40; rep++ {
+					var res []database.SearchResult
+					switch (i + rep) % 3 {
+					case 0:
+						res = db.SearchUniversal(qs[i], opts[i])
+					case 1:
+						res = mdb.SearchWithOptionsAndCache(qs[i], opts[i])
+					default:
+						res = mdb.SearchWithOptionsAndMonitoring(qs[i], opts[i])
+					}
+					for _, r := range res {
+						if v := c04Violation(r.Command, opts[i]); v != "" {
+							mu.Lock()
+							bad = append(bad, fmt.Sprintf("%s filter breached for goroutine %d: %q platforms=%v pipeline=%v returned under %v", v, i, r.Command.Command, r.Command.Platform, r.Command.Pipeline, optBrief(opts[i])))
+							mu.Unlock()
+							return
+						}
+					}
+				}
+			}(i)
+		}
+		wg.Wait()
+		if len(bad) > 0 {
+			t.Fatalf("%s\n (host %s; %d goroutines with different filter settings on one database)", strings.Join(bad, "\n"), c04Host(), g)
+		}
+		rec.Case(true, map[string]any{"concurrent": true, "goroutines": g, "db_size": len(cmds)}, "concurrent-filters")
 	})
 }
